@@ -3,6 +3,7 @@ mod bridge;
 mod conn;
 mod ep;
 mod explore;
+mod genpk;
 mod refcodec;
 mod props;
 mod report;
@@ -48,6 +49,9 @@ fn main() {
             let mut rep = Report::new(&id, &tier, level_of(&id));
             let r = util::guarded(|| match id.as_str() {
                 "C01" => props::c01::run(&mut rep),
+                "C02" => props::codec::c02(&mut rep),
+                "C03" => props::codec::c03(&mut rep),
+                "C04" => props::c04::run(&mut rep),
                 "C05" => props::c05::run(&mut rep),
                 "C06" => props::c06::run(&mut rep),
                 "C07" => props::eps::c07(&mut rep),
@@ -60,6 +64,7 @@ fn main() {
                 "C15" => props::eps::c15(&mut rep),
                 "C16" => props::diff::c16(&mut rep),
                 "C17" => props::c17::run(&mut rep),
+                "C18" => props::c18::run(&mut rep),
                 "C19" => props::eps::c19(&mut rep),
                 "C09" => props::c09::run(&mut rep),
                 "C20" => props::c20::run(&mut rep),
@@ -87,6 +92,8 @@ fn main() {
             println!("replaying {} ({}), {} steps; expected: {}", prop, config, labels.len(), v["detail"]);
             let out = match prop.as_str() {
                 "C01" => props::c01::replay(&config, &labels),
+                "C02" | "C03" => props::codec::replay(&v),
+                "C04" => props::c04::replay(&v),
                 "C05" => props::c05::replay(&config, &labels),
                 "C06" => props::c06::replay(&config, &labels),
                 "C07" | "C08" | "C12" | "C13" | "C14" | "C15" | "C19" => props::eps::replay(&config, &labels),
@@ -94,6 +101,7 @@ fn main() {
                 "C10" | "C16" => props::diff::replay(&config, &labels),
                 "C11" => props::c11::replay(&v),
                 "C17" => props::c17::replay(&config, &labels),
+                "C18" => props::c18::replay(&v),
                 "C20" => props::c20::replay(&config, &labels),
                 _ => Err(format!("no replayer for {prop}")),
             };
